@@ -121,3 +121,18 @@ Definition ex_tr_empty : list (nat * step) :=
 Example ex_empty_workloads_valid :
   valid_trace true [ex_empty_its; ex_empty_its; ex_its ++ ex_empty_its] ex_tr_empty = true.
 Proof. vm_compute. reflexivity. Qed.
+
+(* ------------------------------------------------------------------------------------------ *)
+(* the discipline "who destroys, re-creates" is NECESSARY: a writer whose copy FAILS after its reflink
+   attempt (an I/O error, a crash) has an illegal program - it stops after [ProbeUnlink] - and the complete
+   object the OTHER writer placed is gone for good, although that writer ran its whole legal program *)
+Definition fex_failed : program := [ExistsCheck ex_o false; Mkdir [97; 97]; ProbeOpen ex_o; ProbeUnlink ex_o].
+Definition fex_sched : list nat := [0; 1; 1; 1; 1; 1; 1; 1; 1; 0; 0; 0]%nat.
+Theorem failed_prober_loses_object : forall loc,
+  legal loc ex_its fex_failed = false /\ legal loc ex_its (ex_prog_of loc) = true /\
+  exists w ps, run [ex_its; ex_its] fex_sched w0 [fex_failed; ex_prog_of loc] = Some (w, ps) /\
+               all_done ps = true /\ view w ex_o = None.
+Proof.
+  intros [|]; (split; [vm_compute; reflexivity|split; [vm_compute; reflexivity|]]);
+    eexists; eexists; (split; [vm_compute; reflexivity|split; vm_compute; reflexivity]).
+Qed.
